@@ -118,7 +118,7 @@ def replay_behaviour(arg):
 def replay_sector(ctx):
     behaviours = []
     # most behaviours without zero states (an in-place call on the zero state is nondeterministic in the model and ends the lockstep)
-    for tag, zc, num in (('secsim', '{FALSE}', ctx.pick(400, 6000)), ('secsim0', '{TRUE, FALSE}', ctx.pick(100, 1500))):
+    for tag, zc, num in (('secsim', '{FALSE}', ctx.pick(400, 12000)), ('secsim0', '{TRUE, FALSE}', ctx.pick(100, 1500))):
         prefix = ctx.work + '/' + tag
         r = tlc.run('Sector', ctx.work, tag, workers=1, constants=dict(NOBJ=3, MaxDepth=7, LegacyFromVector='FALSE'), defs=dict(ZeroCreate=zc),
                     invariants=['LenOK', 'KindOK', 'NeverRaised'], simulate=dict(num=num, file=prefix),
@@ -163,7 +163,7 @@ def run(ctx):
               expect_violation='NeverRaised')
     if ctx.replay is None:
         replay_sector(ctx)
-    seeds = [ctx.replay['replay']['seed']] if ctx.replay is not None else [int(x) for x in rng.integers(1 << 30, size=ctx.pick(700, 6000))]
+    seeds = [ctx.replay['replay']['seed']] if ctx.replay is not None else [int(x) for x in rng.integers(1 << 30, size=ctx.pick(700, 16000))]
     traces = pmap(_hist, [(s, ctx.quick) for s in seeds])
     for s, t02 in zip(seeds, traces):
         ctx.count(s, nontrivial=sum(1 for r in t02 if r.get('kind') == 'inplace') >= 1 and len(t02) >= 6)
